@@ -212,7 +212,7 @@ func parseStderr(stderr string) (reps []report, stray []string) {
 				}
 			}
 			if rep.Declared >= 0 && rep.Declared != len(rep.Blocks) {
-				rep.Problems = append(rep.Problems, fmt.Sprintf("trailer-says-%d-errors-but-%d-blocks-read", rep.Declared, len(rep.Blocks)))
+				rep.Problems = append(rep.Problems, fmt.Sprintf("trailer-count-differs-from-blocks-read: trailer says %d errors, %d blocks read", rep.Declared, len(rep.Blocks)))
 			}
 			if rep.Declared < 0 && len(rep.Problems) == 0 {
 				rep.Problems = append(rep.Problems, "no-N-errors-trailer")
